@@ -631,8 +631,9 @@ static int
 ddiff_prnt(struct dt_dtdur_s dur, const char *fmt, durfmt_t f, bool only_d_p)
 {
 /* this is mainly a better dt_strfdtdur() */
-	char buf[256];
-	size_t res = __strfdtdur(buf, sizeof(buf), fmt, dur, f, only_d_p);
+/* space is checked per field, not per byte, keep a field's worth of slack */
+	char buf[256U + 32U];
+	size_t res = __strfdtdur(buf, sizeof(buf) - 32U, fmt, dur, f, only_d_p);
 
 	if (res > 0 && buf[res - 1] != '\n') {
 		/* auto-newline */
